@@ -45,34 +45,93 @@ fn entity(p: &[&str]) -> String {
     }
 }
 
-/// chain_link <retarget>: build a real certificate chain (stable signer set, one certificate per epoch) with the
-/// crate's own test builder and verify one link with the real `MithrilCertificateVerifier`.
-///   retarget = 0: the honest link (certificate of epoch e -> certificate of epoch e-1)      -> must be accepted
-///   retarget = 1: the certificate of epoch e re-targeted to the certificate of epoch e+1 (previous_hash replaced,
-///                 hash recomputed; the multi-signature does not cover previous_hash)            -> must be rejected
-fn chain_link(retarget: bool) -> String {
+/// chain_link <scenario>: build a real certificate chain with the crate's own test builders and verify ONE link with
+/// the real `MithrilCertificateVerifier::verify_standard_certificate` (real BLS multi-signatures, real hashes).
+///   0: the honest link (epoch e -> epoch e-1)                                                   -> must be accepted
+///   1: an honest certificate of epoch e re-targeted to the certificate of epoch e+1 (hash recomputed) -> must be rejected
+///   2: same-epoch link, certificate re-signed by a foreign signer set (own AVK)                      -> must be rejected
+///   3: cross-epoch link (e -> e-1), certificate re-signed by a foreign signer set                    -> must be rejected
+///   4: like 3 but the previous certificate is the genesis certificate                               -> must be rejected
+///   5: same-epoch link, foreign signer set using different protocol parameters, AVK field kept honest is impossible,
+///      so: honest signer set but protocol parameters of the certificate changed (phi_f) and re-signed -> must be rejected
+fn forge(template: &mithril_common::entities::Certificate, change_params: bool) -> mithril_common::entities::Certificate {
+    use mithril_common::crypto_helper::ProtocolClerk;
+    use mithril_common::entities::{CertificateSignature, ProtocolMessagePartKey};
+    use mithril_common::test::builder::{MithrilFixtureBuilder, StakeDistributionGenerationMethod};
+    use mithril_common::test::double::Dummy;
+    use mithril_stm::{AggregateSignatureType, AncillaryProofInput};
+    let mut params = template.metadata.protocol_parameters.clone();
+    if change_params {
+        params.phi_f = 1.0;
+    }
+    let adversary = MithrilFixtureBuilder::default()
+        .with_signers(3)
+        .with_party_id_seed([0xAD; 32])
+        .with_stake_distribution(StakeDistributionGenerationMethod::RandomDistribution { seed: [0xAD; 32], min_stake: 1 })
+        .with_protocol_parameters(params.clone())
+        .build();
+    let signers = adversary.signers_fixture();
+    let clerk = ProtocolClerk::new_clerk_from_signer(&signers[0].protocol_signer);
+    let mut forged = template.clone();
+    forged.protocol_message.set_message_part(ProtocolMessagePartKey::SnapshotDigest, "digest-chosen-by-the-adversary".to_string());
+    forged.signed_message = forged.protocol_message.compute_hash();
+    forged.metadata.signers = adversary.stake_distribution_parties();
+    forged.metadata.protocol_parameters = params;
+    forged.aggregate_verification_key =
+        clerk.compute_aggregate_verification_key().to_concatenation_aggregate_verification_key().to_owned().into();
+    let single_signatures: Vec<_> =
+        signers.iter().filter_map(|s| s.protocol_signer.sign(forged.signed_message.as_bytes())).collect();
+    let (multi_signature, _) = clerk
+        .aggregate_signatures_with_type(&single_signatures, forged.signed_message.as_bytes(), AggregateSignatureType::default(), AncillaryProofInput::dummy())
+        .expect("adversarial quorum");
+    forged.signature = CertificateSignature::MultiSignature(forged.signed_entity_type(), multi_signature.into());
+    forged.hash = forged.try_compute_hash().unwrap();
+    forged
+}
+
+fn chain_link(scenario: u32) -> String {
     use mithril_common::certificate_chain::{CertificateVerifier, MithrilCertificateVerifier};
     use mithril_common::test::builder::{CertificateChainBuilder, CertificateChainingMethod};
     use mithril_common::test::double::FakeCertificaterRetriever;
     use std::sync::Arc;
+    let per_epoch = if scenario == 2 || scenario == 5 { 2 } else { 1 };
     let chain = CertificateChainBuilder::new()
         .with_total_certificates(5)
-        .with_certificates_per_epoch(1)
+        .with_certificates_per_epoch(per_epoch)
         .with_total_signers_per_epoch_processor(&|_| 3)
-        .with_certificate_chaining_method(CertificateChainingMethod::Sequential)
+        .with_certificate_chaining_method(if per_epoch == 1 { CertificateChainingMethod::Sequential } else { CertificateChainingMethod::ToMasterCertificate })
         .build();
     // certificates_chained is ordered latest -> genesis
     let certs = &chain.certificates_chained;
-    let later = certs[1].clone(); // epoch e+1
-    let mut cert = certs[2].clone(); // epoch e
-    let earlier = certs[3].clone(); // epoch e-1
-    assert!(*later.epoch == *cert.epoch + 1 && *cert.epoch == *earlier.epoch + 1);
-    let previous = if retarget {
-        cert.previous_hash = later.hash.clone();
-        cert.hash = cert.try_compute_hash().unwrap();
-        later
-    } else {
-        earlier
+    let find = |h: &str| certs.iter().find(|c| c.hash == h).cloned().unwrap();
+    let (cert, previous) = match scenario {
+        0 => (certs[2].clone(), find(&certs[2].previous_hash)),
+        1 => {
+            let later = certs[1].clone();
+            let mut c = certs[2].clone();
+            assert!(*later.epoch == *c.epoch + 1);
+            c.previous_hash = later.hash.clone();
+            c.hash = c.try_compute_hash().unwrap();
+            (c, later)
+        }
+        2 | 5 => {
+            let latest = certs[0].clone();
+            let prev = find(&latest.previous_hash);
+            assert!(prev.epoch == latest.epoch, "scenario needs a same-epoch link");
+            (forge(&latest, scenario == 5), prev)
+        }
+        3 => {
+            let c = certs[1].clone();
+            let prev = find(&c.previous_hash);
+            assert!(*prev.epoch + 1 == *c.epoch);
+            (forge(&c, false), prev)
+        }
+        _ => {
+            let genesis = certs[certs.len() - 1].clone();
+            let c = certs[certs.len() - 2].clone();
+            assert!(c.previous_hash == genesis.hash && genesis.is_genesis());
+            (forge(&c, false), genesis)
+        }
     };
     let logger = slog::Logger::root(slog::Discard, slog::o!());
     let verifier = MithrilCertificateVerifier::new(
@@ -116,7 +175,15 @@ fn main() {
         let out = match p[0] {
             "beacon" => beacon(p[1], p[2].parse().unwrap(), p[3].parse().unwrap(), p[4].parse().unwrap()),
             "entity" => entity(&p),
-            "chain_link" => chain_link(p[1] == "1"),
+            "stake_root" => {
+                use mithril_common::signable_builder::CardanoStakeDistributionSignableBuilder as B;
+                let d1 = std::collections::BTreeMap::from([(p[1].to_string(), p[2].parse::<u64>().unwrap())]);
+                let d2 = std::collections::BTreeMap::from([(p[3].to_string(), p[4].parse::<u64>().unwrap())]);
+                let r1 = B::compute_merkle_tree_from_stake_distribution(d1).unwrap().compute_root().unwrap();
+                let r2 = B::compute_merkle_tree_from_stake_distribution(d2).unwrap().compute_root().unwrap();
+                if r1 == r2 { "equal".to_string() } else { "different".to_string() }
+            }
+            "chain_link" => chain_link(p[1].parse().unwrap()),
             "epoch_gap" => {
                 let a = Epoch(p[1].parse().unwrap());
                 let b = Epoch(p[2].parse().unwrap());
